@@ -334,6 +334,8 @@ func c06OnTheSpot(r *Run, g *ssa.Function) bool {
 func c06GetSTH(r *Run, fn *ssa.Function) {
 	const k = "GetSTH"
 	const li = "p0.li"
+	r.Assume("a return that hands out a nil root together with an error value that is not the nil constant is a failure return: callers test the error before they use the root (a nil root that is used crashes: C08.R4 / R8)")
+	r.Assume("callers of an STHGetter do not modify the STH they receive (a remembered tree head may share memory with one handed out)")
 	oks := c06OKReturns(fn)
 	r.Check(k+":success-return", len(oks) >= 1, r.FnPos(fn), fmt.Sprintf("%d success returns", len(oks)))
 	// the tree heads handed out: each built in this call
@@ -418,9 +420,11 @@ func c06GetSTH(r *Run, fn *ssa.Function) {
 		rs := &c06RootResolver{r: r, k: k, top: fn, li: li, seen: map[string]bool{}}
 		rs.resolve(R, fn, c06Frame{f: func(t string) string { return t }, id: "top"}, 0)
 		rs.report(R, uses)
-		if ex, ok := R.(*ssa.Extract); ok {
-			if c, ok := ex.Tuple.(*ssa.Call); ok {
-				fetchCalls = append(fetchCalls, c)
+		for _, leaf := range phiLeaves(R) {
+			if ex, ok := leaf.(*ssa.Extract); ok {
+				if c, ok := ex.Tuple.(*ssa.Call); ok {
+					fetchCalls = append(fetchCalls, c)
+				}
 			}
 		}
 		for _, o := range rs.origins {
@@ -641,19 +645,23 @@ func (rs *c06RootResolver) cell(ld *ssa.UnOp, fa *ssa.FieldAddr, fn *ssa.Functio
 	if obj := c06LocalObj(fa.X); fv != nil && obj != nil {
 		// an object this function created itself: what it stored into the field
 		n := 0
-		for _, ref := range *obj.Referrers() {
-			if ofa, ok := ref.(*ssa.FieldAddr); ok && fieldOf(ofa) == fv {
-				for _, r2 := range *ofa.Referrers() {
-					if st, ok := r2.(*ssa.Store); ok && st.Addr == ssa.Value(ofa) && !isNilConst(st.Val) {
-						n++
-						rs.resolve(st.Val, fn, frame, depth+1)
-					}
-				}
+		eachInstr(fn, func(in ssa.Instruction) {
+			st, ok := in.(*ssa.Store)
+			if !ok || isNilConst(st.Val) {
+				return
 			}
-		}
+			if ofa, ok := st.Addr.(*ssa.FieldAddr); ok && fieldOf(ofa) == fv && c06LocalObj(ofa.X) == obj {
+				n++
+				rs.resolve(st.Val, fn, frame, depth+1)
+			}
+		})
 		if n > 0 {
 			return
 		}
+	}
+	if p := c06InstanceOf(fa.X); fv != nil && p != nil {
+		rs.fail(r.Where(ld), "the STH can be built from "+r.D.D(ld)+", a root the getter keeps in its own field "+fv.Name()+" from an earlier call — not one fetched for this call or by a fetch in flight during it: the STH served then reports an older tree than the backend's")
+		return
 	}
 	if fv == nil || pubCell == nil || inst == nil {
 		rs.fail(r.Where(ld), "undecided: the root "+r.D.D(ld)+" is read from an object that was not found in a cell of the instance")
@@ -699,6 +707,9 @@ func (rs *c06RootResolver) cell(ld *ssa.UnOp, fa *ssa.FieldAddr, fn *ssa.Functio
 				}
 				if strings.HasPrefix(t, qt+".") {
 					return instTop + t[len(qt):]
+				}
+				if !strings.ContainsAny(t, "p^") || strings.HasPrefix(t, "\"") || strings.HasPrefix(t, "g:") {
+					return t // a constant or a global: the same in every invocation
 				}
 				return "opaque:another-invocation(" + t + ")"
 			}}
@@ -1367,23 +1378,35 @@ func c06NotWhenEmpty(r *Run, fn *ssa.Function, key string, marks []ssa.Instructi
 	blocks := r.blocksTesting(fn, func(ci *CondInfo) bool { return isKey[ci.Key] })
 	ok, detail := len(blocks) > 0, "the tree head is remembered only with a non-empty signature"
 	pos := false
-	for _, b := range blocks {
-		for _, v := range []string{"<", "=", ">"} {
-			s := Sigma{}
-			feasible := false
-			for _, kk := range keys {
-				s[kk] = v
-				if !r.D.infeasible(found, kk, v) {
-					feasible = true
+	for _, m := range marks {
+		// the test has been passed on every path to m …
+		var tests []*ssa.BasicBlock
+		for _, b := range blocks {
+			if b != m.Block() && b.Dominates(m.Block()) {
+				tests = append(tests, b)
+			}
+		}
+		if len(tests) == 0 {
+			ok, detail = false, "the tree head is remembered at "+r.Where(m)+" on a path that has not passed the test of the signature's length: a tree head with an empty signature can be remembered, and the next call serves it with that empty signature and a nil error"
+			continue
+		}
+		// … and came out "not empty"
+		for _, b := range tests {
+			for _, v := range []string{"<", "=", ">"} {
+				s := Sigma{}
+				feasible := false
+				for _, kk := range keys {
+					s[kk] = v
+					if !r.D.infeasible(found, kk, v) {
+						feasible = true
+					}
 				}
-			}
-			if !feasible {
-				continue
-			}
-			reach := r.D.Walk(fn, s, b, nil)
-			r.Valuations++
-			for _, m := range marks {
-				if !reach.Has(m) || m.Block() == b {
+				if !feasible {
+					continue
+				}
+				reach := r.D.Walk(fn, s, b, nil)
+				r.Valuations++
+				if !reach.Has(m) {
 					continue
 				}
 				if v == "=" {
@@ -1391,11 +1414,6 @@ func c06NotWhenEmpty(r *Run, fn *ssa.Function, key string, marks []ssa.Instructi
 				} else {
 					pos = true
 				}
-			}
-		}
-		for _, m := range marks {
-			if m.Block() == b {
-				ok, detail = false, "the tree head is remembered at "+r.Where(m)+" before the signature's length is tested"
 			}
 		}
 	}
@@ -1676,6 +1694,7 @@ func c08ContextErrors(r *Run, onWay map[*ssa.Function]bool) {
 		"text":       "the text of a context's error is handed on",
 		"relabelled": "a context's error is turned into a gRPC status with a code other than Canceled / DeadlineExceeded: a timeout is not answered 504",
 	}
+	r.Assume("status.FromContextError(err).Err() is the gRPC status error the gRPC client returns for a call whose context ended with err (Canceled / DeadlineExceeded), and a context whose Done channel is closed reports a non-nil Err()")
 	n := 0
 	for _, fn := range r.P.ModFuncs {
 		if !onWay[fn] {
